@@ -43,7 +43,6 @@ verus! {
 //@@ ASSUME src/check/name/mod.rs | free | match_name
 //@@ ASSUME src/check/constrain/generate/collection.rs | free | gen_col
 //@@ ASSUME src/check/constrain/generate/collection.rs | free | gen_col_items
-//@@ ASSUME src/check/constrain/generate/operation.rs | free | gen_primitive
 //@@ ASSUME src/check/context/clss/mod.rs | impl LookupClass<&StringName, Class> for Context | class
 //@@ ASSUME src/check/context/clss/mod.rs | impl LookupClass<&TrueName, Class> for Context | class
 //@@ ASSUME src/check/context/clss/mod.rs | impl HasParent<&Name> for Class | has_parent
@@ -98,6 +97,8 @@ pub open spec fn chain(asts: Seq<AST>, envs: Seq<Environment>, env: Environment,
 /// OUTLINED `a == "literal"` on &str (Verus has no str comparison): compares the texts
 #[verifier::external_body]
 pub fn verif_str_is(a: &str, b: &str) -> (r: bool) ensures r == (a@ == b@) { unimplemented!() }
+/// unit GENOP verifies this contract (and more) on the real body of gen_primitive; here it is assumed (assume-guarantee;
+/// GENOP is a unit of every property that uses GENFLOW)
 #[verifier::external_body]
 pub fn gen_primitive(ast: &AST, ty: &str, env: &Environment, constr: &mut ConstrBuilder) -> (r: Constrained)
     ensures mono(*old(constr), *final(constr)), r is Err ==> r->Err_0@.len() >= 1,
